@@ -24,6 +24,9 @@ func runC09(c *Check, tier string) {
 	// "only if": every component the statement lists is part of the key
 	ruleR01a(c, "R09e")
 	ruleR09f(c, "R09f")
+	// dependency output digests are part of the key: they must not depend on what the cache already holds
+	ruleRecordCacheIndependent(c, "R09g")
+	ruleMemoKeyComplete(c, "R09h", "hashing", "output")
 }
 
 // R09f: every listed input file contributes its content — the loop that streams the input files into the
